@@ -524,7 +524,7 @@ def run(ctx: Ctx):
     small = dict(invs=INV15, Horizon=8, StepLens="{2, 3, 4}", MaxSteps=3, Laws="LawsOne", Kinds="KindsOne")
     refuted = K.run_as_coded(ctx, "ascoded", ("ThrustExactlyInterval",), **small)
     refuted_b = K.run_as_coded(ctx, "ascoded_b", ("ThrustExactlyInterval",), deviation="EndMasksStart", **small)
-    cov = K.run_coverage(ctx, "cov", [a for a in K.ACTIONS if a not in ("AppendEvent", "PrepEventsBulk", "DropEvents")], invs=INV15,
+    cov = K.run_coverage(ctx, "cov", [a for a in K.ACTIONS if a not in ("AppendEvent", "PrepEventsBulk", "DropEvents", "NeighbourCall", "PrepEventsNb")], invs=INV15,
                          Horizon=6, StepLens="{2, 3}", MaxSteps=3, Laws="LawsOne", Kinds="KindsOne", ImpChoice='"any"', ImpDvs="{1}")
     refuted_c = K.run_as_coded(ctx, "ascoded_c", ("ThrustExactlyInterval", "ImpulseNeverLost"), deviation="FirstRootOnly",
                                ImpChoice='"coincident"', ImpDvs="{1}", **small)
